@@ -59,14 +59,11 @@ UNITS = [sliding(F1, 'bamToCountTable'), bins(F1, 'bamToCountTable'),
 
 
 # the bin-increment block of assignReads is verified in contracts/c11.py (it needs the read/args stubs defined there);
-# the unit is part of this property's obligations as well
-def _assign_binned():
+# the unit is part of this property's obligations as well (loaded lazily: c11 imports this module)
+def extra_units():
     from contracts import c11
     import copy
     u = copy.copy(c11.assign_binned)
     u.prop = PROP
     u.name = 'assignReads.bin_increment[-bin, no sliding]'
-    return u
-
-
-UNITS.append(_assign_binned())
+    return [u]
